@@ -352,7 +352,7 @@ class SupervisoryEnhancedControlField(EnhancedControlField):
                 (
                     self.frame_type
                     | (self.supervision_function << 2)
-                    | self.poll << 7
+                    | (self.poll << 4)
                     | (self.final << 7)
                 ),
                 self.req_seq,
